@@ -72,6 +72,8 @@ def run_cases(mod, cases, ctx, stats, deadline=None):
         stats["evaluations"] += 1
         stats["routes"][case.route] = stats["routes"].get(case.route, 0) + 1
         stats["regions"][case.region] = stats["regions"].get(case.region, 0) + 1
+        for tag in (case.p.get("tags") or []):          # secondary strata a case also belongs to
+            stats["regions"][tag] = stats["regions"].get(tag, 0) + 1
         nt = True
         if hasattr(mod, "nontrivial"):
             nt = bool(mod.nontrivial(case))
